@@ -569,7 +569,7 @@ pub fn run(ctx: &Ctx) -> i32 {
         println!("replay C02: decoder {name}, {} bytes -> {:?}, peak allocation {} bytes", bytes.len(), res, alloc_window_peak());
         return 0;
     }
-    report.rule = "72 decoders (55 struct types, 17 reply enums). (i) exhaustive: every input of length <= 2 and cf,cf,len,body for every body of length <= 2; (ii) corpus of reference encodings of canonical values (>= 8 per type) + the repository's captured packets: every truncation and every single-byte substitution (256 values per offset; quick: offsets < 96 of a seed-dependent sample of 128 packets), each through the packet's own decoder and the reply enums; (iii) structure-aware random mutants of the reference chunk trees (length-prefix forms 81/82/82xx/FF/too long/too short, tag splices, BCD digit overflow, F nibbles, calendar values month 0-19 day 0-39 hour 0-29, duplicated/dropped groups, cuts inside containers) and large bodies up to 65535 bytes; (iv) the stream reader (PacketTransport::read_packet and the *_with_ack operations) over hostile byte streams: every extended header FF lo hi for all 65536 announced lengths with the stream ending behind the header / inside the body / (boundary lengths and a stride) behind the complete body, every short header likewise, random streams - a packet or an error, never a panic; (v) BER long forms of 1..126 length bytes (zero / non-zero bytes above the low 1, 2, 4, 8, 9, 16 bytes, all FF, random) given to the length parser: an error or exactly the number written, never a wrapped one. Non-trivial = input of >= 1 byte; distinct by hash of (decoder, input) for random parts, by construction for enumerated parts.".into();
+    report.rule = "72 decoders (55 struct types, 17 reply enums). (i) exhaustive: every input of length <= 2 and cf,cf,len,body for every body of length <= 2; (ii) corpus of reference encodings of canonical values (>= 8 per type) + the repository's captured packets: every truncation and every single-byte substitution (256 values per offset; quick: offsets < 96 of a seed-dependent sample of 128 packets), each through the packet's own decoder and the reply enums; (iii) structure-aware random mutants of the reference chunk trees (length-prefix forms 81/82/82xx/FF/too long/too short, tag splices, BCD digit overflow, F nibbles, calendar values month 0-19 day 0-39 hour 0-29, duplicated/dropped groups, cuts inside containers) and large bodies up to 65535 bytes; (iv) the stream reader (PacketTransport::read_packet and the *_with_ack operations) over hostile byte streams: every extended header FF lo hi for all 65536 announced lengths with the stream ending behind the header / inside the body / (boundary lengths and a stride) behind the complete body, every short header likewise, random streams - a packet or an error, never a panic; (v) BER long forms of 1..126 length bytes (zero / non-zero bytes above the low 1, 2, 4, 8, 9, 16 bytes, all FF, random) given to the length parser: an error or exactly the number written, never a wrapped one; (vi) date and time entries of a date/time container written with numbers of up to 24 digits, among them numbers that are a valid date / time of day modulo 2^8 .. 2^65 as a whole or in their year / hour part, through the date/time decoder and through the packet that carries it: an error or exactly the date and time written. Non-trivial = input of >= 1 byte; distinct by hash of (decoder, input) for random parts, by construction for enumerated parts.".into();
     report.exhaustive = Some(false);
     report.assumptions = vec![
         "allocation bound judged: peak live bytes during one decode (Debug rendering of the result included) <= 64 x input length + 16 KiB".into(),
@@ -741,6 +741,84 @@ pub fn run(ctx: &Ctx) -> i32 {
                             }
                         }
                     }
+                }
+            }
+        });
+    }
+    // (vi) calendar numbers that do not fit: the date and time entries of a date/time container written with numbers far
+    //      beyond YYYYMMDD / HHMMSS, among them numbers that are a valid date or time of day modulo 2^8 .. 2^64 (as a whole
+    //      or in their year / hour part).  An error, or exactly the date and time written - never a wrapped one.
+    {
+        use chrono::{Datelike, NaiveDateTime, Timelike};
+        use zvt_builder::encoding::{Default as Dflt, Encoding};
+        use zvt_builder::ZvtSerializer;
+        sharded(&mut report, nshards, |shard, r| {
+            let mut rng = Rng::derive(seed, 0xC02_CA1E + shard as u64);
+            let dates: [u128; 5] = [2024_01_01, 1999_12_31, 1_01_01, 9999_12_31, 2000_02_29];
+            let times: [u128; 5] = [12_00_00, 23_59_59, 0, 1, 9_30_15];
+            let mut cands: Vec<(u128, u128)> = vec![];
+            let mut wide: Vec<(u128, bool)> = vec![];
+            for w in [8u32, 16, 31, 32, 33, 63, 64, 65] {
+                for k in (1..=6u128).chain((0..6).map(|_| 1 + rng.below(1 << 20) as u128)) {
+                    for (i, b) in dates.iter().enumerate() {
+                        // the whole number, or only its year part, is valid modulo 2^w
+                        wide.push((b + (k << w), true));
+                        wide.push((((k << w) + b / 10000) * 10000 + b % 10000, true));
+                        let t = times[i];
+                        wide.push((t + (k << w), false));
+                        wide.push((((k << w) + t / 10000) * 10000 + t % 10000, false));
+                    }
+                }
+            }
+            for _ in 0..400 {
+                let digits = 7 + rng.below(17) as u32;
+                wide.push((rng.next() as u128 * rng.next() as u128 % 10u128.pow(digits), rng.chance(1, 2)));
+            }
+            for (i, (n, is_date)) in wide.into_iter().enumerate() {
+                if n >= 10u128.pow(24) || i % nshards != shard {
+                    continue;
+                }
+                cands.push(if is_date { (n, *rng.pick(&times)) } else { (*rng.pick(&dates), n) });
+            }
+            for (date, time) in cands {
+                let entry = |tag: u8, n: u128, min: usize| {
+                    let mut b = bcd_bytes(n);
+                    while b.len() < min {
+                        b.insert(0, 0);
+                    }
+                    let mut e = vec![0x1f, tag];
+                    e.extend(ber_len(b.len()).unwrap());
+                    e.extend(b);
+                    e
+                };
+                let mut container = entry(0x0e, date, 4);
+                container.extend(entry(0x0f, time, 3));
+                // the same container inside the packet that carries it
+                let mut tlv = vec![0x34];
+                tlv.extend(ber_len(container.len()).unwrap());
+                tlv.extend(&container);
+                let mut packet = vec![0x06, 0x0f, (6 + tlv.len()) as u8, 0xf0, 0xf0, 0x00, 0x06];
+                packet.extend(ber_len(tlv.len()).unwrap());
+                packet.extend(&tlv);
+                r.case_enumerated(true);
+                r.count("inputs.calendar-number-does-not-fit", 1);
+                let case = || json!({"kind": "calendar-number", "date_written": date.to_string(), "time_written": time.to_string(), "container": hex(&container), "packet": hex(&packet)});
+                let judge = |r: &mut Report, via: &str, got: Result<Option<NaiveDateTime>, String>| {
+                    if let Ok(Some(dt)) = got {
+                        let d = dt.year() as i128 * 10000 + dt.month() as i128 * 100 + dt.day() as i128;
+                        let t = dt.hour() as u128 * 10000 + dt.minute() as u128 * 100 + dt.second() as u128;
+                        if d != date as i128 || t != time {
+                            r.violation("date/time: a number that does not fit a calendar field is handed back wrapped", &format!("{via}: date entry {date}, time entry {time} decoded as {dt:?}"), case());
+                        }
+                    }
+                };
+                match guarded(|| <Dflt as Encoding<NaiveDateTime>>::decode(&container).map(|(v, _)| Some(v)).map_err(|e| format!("{e:?}"))) {
+                    Err(p) => r.violation(&format!("Default<NaiveDateTime>.decode {}", panic_signature(&p)), &format!("date {date} time {time}: {p}"), case()),
+                    Ok(got) => judge(r, "Default<NaiveDateTime>.decode", got),
+                }
+                match guarded(|| zvt::packets::ReceiptPrintoutCompletion::zvt_deserialize(&packet).map(|(v, _)| v.tlv.and_then(|t| t.date_time)).map_err(|e| format!("{e:?}"))) {
+                    Err(p) => r.violation(&format!("ReceiptPrintoutCompletion {}", panic_signature(&p)), &format!("date {date} time {time}: {p}"), case()),
+                    Ok(got) => judge(r, "ReceiptPrintoutCompletion", got),
                 }
             }
         });
